@@ -22,6 +22,9 @@ func c07Within(root, p string) bool {
 func c07Env() *vEnv {
 	e := vNewEnv()
 	e.cc.Account.Access = hotline.AccessBitmap{0xff, 0xff, 0xff, 0xff, 0xff, 0xff, 0xff, 0xff}
+	// this client's account has its own file root (the server-wide one is /srv): everything must stay inside /r
+	e.cc.Account.FileRoot = "/r"
+	e.srv.Config.FileRoot = "/srv"
 	return e
 }
 
@@ -110,11 +113,15 @@ func VH_C07_AccountPaths_sym() {
 	vfs.put("/cfg/Users/bob.yaml", []byte("doc"))
 	am := &YAMLAccountManager{accountDir: "/cfg/Users", accounts: map[string]hotline.Account{"bob": {Login: "bob"}}}
 	login := string(vBytesEach("login", 4))
-	switch vChoice("op", 3) {
+	switch vChoice("op", 4) {
 	case 0:
 		am.Create(hotline.Account{Login: login})
 	case 1:
 		am.Update(hotline.Account{Login: "bob"}, login)
+	case 2:
+		// an account whose (earlier accepted) login is hostile is renamed to a harmless one
+		am.accounts[login] = hotline.Account{Login: login}
+		am.Update(hotline.Account{Login: login}, "new")
 	default:
 		am.Delete(login)
 	}
